@@ -331,7 +331,7 @@ func ReportPQ(r *core.Run, rejects []core.Reject, mineList []string) {
 		r.Violate(core.Violation{Signature: fmt.Sprintf("pq:%s:%s", name, lastEvName(d)), What: d.Describe() + fmt.Sprintf(" [%v]", d.Trace.Meta), Replay: path})
 	}
 	if len(others) > 0 {
-		r.Extra["deviations_recorded_for_other_properties"] = others
+		r.SetExtra("deviations_recorded_for_other_properties", others)
 	}
 	for _, rj := range rejects {
 		ev := lastEvName(rj)
